@@ -51,6 +51,8 @@ PROPS = {
     "C02": dict(
         gens=[tlc("c02"), rand("stream_ascii", 600, "quick"), rand("stream_ascii", 30000, "thorough")],
         tv_props=["C02"],
+        mc=[dict(module="MC_ReplaceM.tla", cfg="MC_ReplaceM", tier="quick"),
+            dict(module="MC_ReplaceM.tla", cfg="MC_ReplaceM_deep", tier="thorough", timeout=3000)],
         must_fire=["C02.chunk_positions", "C02.end_position", "C02.final_positions_in_text"],
         rule="ASCII trees with consistent leaf maps; non-trivial = contains a ReplaceSource or a multi-child ConcatSource",
         nontrivial=lambda p: bool(prog_kinds(p) & {"concat", "replace"}),
@@ -83,7 +85,7 @@ PROPS = {
     "C06": dict(
         gens=[tlc("c06"), tlc("c06r"), rand("concat_children", 300, "quick"), rand("replace_inner", 400, "quick"),
               rand("concat_children", 10000, "thorough"), rand("replace_inner", 20000, "thorough")],
-        tv_props=["C06"],
+        tv_props=["C06", "DRIFT"],
         must_fire=["C06.concat_keeps_child_attribution", "C06.concat_lines_first_mapped_piece",
                    "C06.replace_keeps_inner_attribution"],
         rule="children / inner sources are observed on their own and inside the composite; non-trivial = a SourceMapSource "
